@@ -365,7 +365,9 @@ func (fs *FS) Rename(oldname, newname string) error {
 			var childErr *hackpadfs.LinkError
 			if errors.As(err, &childErr) {
 				// name the directories the caller asked to move, not the child that failed
-				err = childErr.Err
+				if cause := childErr.Err; cause != nil {
+					err = cause
+				}
 			}
 			return linkErr("rename", oldname, newname, err)
 		}
